@@ -317,6 +317,12 @@ func (a *Act) intrinsic(name string, fv FuncV, args []Value) (Value, bool) {
 			a.st.heap[al.obj] = nv(update(a.st.heap[al.obj].v, al.path, ArrayV{e: ne}))
 		}
 		return TupleV{sl.len, nilIface()}, true
+	case "hash/crc32.New":
+		// opaque CRC hash object: polynomial, number of writes since the last Reset, current sum
+		tab := args[0].(PtrV)
+		poly := navigate(a.st.heap[tab.alts[0].obj].v, tab.alts[0].path).(ArrayV).e[0].(*Term)
+		obj := a.alloc(StructV{f: []Value{poly, BV(8, 0), BV(32, 0)}})
+		return IfaceV{alts: []IfaceAlt{{g: True, typ: in.opaqueType("crc32"), val: ptrTo(obj)}}, nilG: False}, true
 	case "crypto/sha256.New":
 		// opaque hash object: ghost record of what was written
 		obj := a.alloc(StructV{f: []Value{BV(64, 0)}})
